@@ -60,7 +60,8 @@ type Pair struct {
 // Case is one configuration, possibly faulty, and the messages it is applied to.
 type Case struct {
 	Tree *tr.Node `json:"tree"`
-	Cut  int      `json:"cut"` // >= 0: the JSON text is truncated to Cut/1000 of its length
+	Cut  int      `json:"cut"`            // >= 0: the JSON text is truncated to Cut/1000 of its length
+	Tail string   `json:"tail,omitempty"` // non-whitespace bytes appended after the complete tree ("@self" = the document once more)
 	Msgs []Pair   `json:"msgs"`
 }
 
@@ -73,14 +74,26 @@ func (c Case) text() []byte {
 		}
 		b = b[:n]
 	}
+	switch c.Tail {
+	case "":
+	case "@self":
+		b = append(append([]byte{}, b...), b...)
+	case "@self-newline":
+		b = append(append(append([]byte{}, b...), '\n'), b...)
+	default:
+		b = append(append([]byte{}, b...), c.Tail...)
+	}
 	return b
 }
 
-func (c Case) mustReject() bool { return c.Cut >= 0 || c.Tree.Faulty() }
+func (c Case) mustReject() bool { return c.Cut >= 0 || c.Tail != "" || c.Tree.Faulty() }
 
 func (c Case) faultName() string {
 	if c.Cut >= 0 {
 		return "truncated-json"
+	}
+	if c.Tail != "" {
+		return "trailing-garbage"
 	}
 	name := ""
 	c.Tree.Walk(func(n *tr.Node, _ int) {
@@ -537,10 +550,19 @@ func genPair(t *rapid.T) Pair {
 	return Pair{Req: rq, Res: rs}
 }
 
+// trailingGarbage: what may follow a complete valid document to make the
+// text as a whole malformed JSON.
+var trailingGarbage = []string{"}", " }", "]", ",", "{}", "\n{}", " null", "x", "\n\ttrailing text", "\"\"", "0", "@self", "@self-newline"}
+
 // injectFault marks one node of the tree (or cuts the text) so that the
 // configuration must be rejected.
 func injectFault(t *rapid.T, c *Case) {
-	kind := pick(t, "fault", []string{tr.FaultUnknownName, tr.FaultScopeUnsupported, tr.FaultScopeUnsupported, tr.FaultScopeInvalid, tr.FaultTwoKeys, tr.FaultNoModifier, tr.FaultNoModifier, "cut"})
+	kind := pick(t, "fault", []string{tr.FaultUnknownName, tr.FaultScopeUnsupported, tr.FaultScopeUnsupported, tr.FaultScopeInvalid, tr.FaultTwoKeys, tr.FaultNoModifier, tr.FaultNoModifier, "cut", "tail", "tail"})
+	if kind == "tail" {
+		// a complete, valid tree followed by something that is not whitespace
+		c.Tail = pick(t, "tail", trailingGarbage)
+		return
+	}
 	if kind == "cut" {
 		c.Cut = uni(t, "cut", 1000)
 		return
@@ -596,7 +618,7 @@ func genCase(t *rapid.T) Case {
 	return c
 }
 
-var treeRule = "configuration trees over fifo.Group / priority.Group / url,header,querystring,method,cookie filters (with and without else) / registered leaves (trace probes, header set/append/delete on headers the conditions read, error leaves, request-only and response-only leaves), scope drawn at every node from {absent,[request],[response],both,[]}, 1 priority entry in 4 without a priority key, depth <= 4|6, width <= 4|6; 1 in 5 carries one fault (unknown name, unsupported scope, invalid scope string, two keys, a filter or priority entry without modifier, truncated text) and must be rejected; valid ones are applied to 4 request/response pairs and compared with the reference interpreter (final message, returned errors as a multiset); non-trivial = depth >= 3, or differing scopes on a root-to-leaf path, or an error leaf under an aggregating group, or a priority tie"
+var treeRule = "configuration trees over fifo.Group / priority.Group / url,header,querystring,method,cookie filters (with and without else) / registered leaves (trace probes, header set/append/delete on headers the conditions read, error leaves, request-only and response-only leaves), scope drawn at every node from {absent,[request],[response],both,[]}, 1 priority entry in 4 without a priority key, depth <= 4|6, width <= 4|6; 1 in 5 carries one fault (unknown name, unsupported scope, invalid scope string, two keys, a filter or priority entry without modifier, truncated text, non-whitespace bytes after the complete tree) and must be rejected; valid ones are applied to 4 request/response pairs and compared with the reference interpreter (final message, returned errors as a multiset); non-trivial = depth >= 3, or differing scopes on a root-to-leaf path, or an error leaf under an aggregating group, or a priority tie"
 
 var propTree = &kit.Prop[Case]{
 	ID: "C12", Name: "tree", Rule: "rapid-drawn " + treeRule,
